@@ -49,7 +49,12 @@ void harness(void){
     ures_t m;
 #if MODE==1
     m_utf8(d,raw,len,1,st0,&m);
+    unsigned char map0[sizeof MAP]; for(size_t i=0;i<sizeof MAP;i++) map0[i]=MAP[i];
+    static htp_cfg_t CFG0; CFG0=CFG;
     htp_utf8_decode_path_inplace(&CFG,&TX,b);
+    /* C19: the best-fit map and the configuration are shared by every parser created from it and are never written while parsing */
+    for(size_t i=0;i<sizeof MAP;i++) assert(MAP[i]==map0[i]);
+    assert(memcmp(&CFG0,&CFG,sizeof CFG)==0);
     assert(bstr_len(b)<=len); assert(bstr_len(b)==m.n);
     for(size_t i=0;i<N;i++) if(i<m.n) assert(bstr_ptr(b)[i]==m.out[i]);
     assert(TX.flags==m.flags); assert(TX.response_status_expected_number==m.status);
